@@ -206,19 +206,24 @@ def c_updatex(ctx, it, cfg):
     def flatten(v):
         log.append(('flatten', v))
         return v[0]
+    corrected = array(ctx, 'dxdt_corrected', (n,))
 
     def correct(h, x0, d):
+        # the model's correction hook may REPLACE entries of the unflattened derivative (PrecipitateModel._correctdXdt does: dXdt[p] = ...);
+        # the state must then advance with the corrected derivative, not with the flat array the iterator passed in
         log.append(('correct', h, x0, d))
-    o = new_obj(it, SOLV, 'DESolver', _X0=X0, _unflattenX=unflatten, _flattenX=flatten, _correctdXdt=correct)
+        d[0] = corrected
+    o = new_obj(it, SOLV, 'DESolver', _X0=X0, _unflattenX=unflatten, _flattenX=flatten, _correctdXdt=correct,
+                _dtmin=real(ctx, '_dtmin'), _dtmax=real(ctx, '_dtmax'), dtmin=real(ctx, 'dtmin'), dtmax=real(ctx, 'dtmax'))
     sx, sd = snapshot(x), snapshot(dxdt)
     r = o._updateX(x, dxdt, dt)
     ctx.prove('result-is-new-array', isinstance(r, ArrBase) and r is not x and r is not dxdt)
-    forall(ctx, 'x-plus-dt-times-derivative', 0, n, lambda i: eq(r.get(i), x.get(i) + dxdt.get(i) * dt))
+    forall(ctx, 'x-plus-dt-times-the-corrected-derivative', 0, n, lambda i: eq(r.get(i), x.get(i) + corrected.get(i) * dt))
     unchanged(ctx, 'arg:x', sx, x)
     unchanged(ctx, 'arg:dxdt', sd, dxdt)
     cs = [e for e in log if e[0] == 'correct']
     ctx.prove('correction-hook-called-once-with-step-and-reference', len(cs) == 1 and eq(cs[0][1], dt) and cs[0][2] is X0)
-    forall(ctx, 'canary/no-step', 0, n, lambda i: eq(r.get(i), x.get(i) + dxdt.get(i)), expect='refuted')
+    forall(ctx, 'canary/no-step', 0, n, lambda i: eq(r.get(i), x.get(i) + corrected.get(i)), expect='refuted')
 
 
 @REG.contract('iterator/array-state-not-modified', [ITER + ':ExplicitEulerIterator', ITER + ':RK4Iterator'],
@@ -248,3 +253,5 @@ def c_frame(ctx, it, cfg):
 from . import c05 as _c05
 REG.contracts.append(_c05.c_solve.contract)
 REG.contracts.append(_c05.c_clamp.contract)
+# stage times reach the models also through a Coupler: the time given by the iterator is forwarded to every coupled model (same contract as C05)
+REG.contracts.append(_c05.c_coupler.contract)
